@@ -425,3 +425,33 @@ example : (tstep (trun C11_threadOps) (.frame 0 (.abs (.ip 1100)))).2 = .res (.i
     ∧ (tstep (trun C11_threadOps) (.frameSym 1 2 (.abs (.ip 1100)))).2 = .panic
     ∧ (tstep (trun C11_threadOps) (.frame 3 (.abs (.ip 1100)))).2 = .panic
     ∧ (tstep (trun C11_threadOps) (.padd 2 ⟨0, 1, 0, 0⟩)).2 = .panic := by decide
+
+/-- **Removal is by start address only.** `remove_mapping(s)` changes the table only if a live mapping *starts* at
+`s`: when it returns nothing, the table — and therefore every later lookup — is unchanged, even if `s` lies in the
+interior of a live mapping (e.g. the old start of a mapping that a newer, overlapping one displaced); and when it
+returns `m`, exactly the entries starting at `s` are gone and every other entry, `m`'s neighbours included, stays. -/
+theorem C11_remove_only_by_start (mp : Map) (s : Nat) :
+    (removeOut mp s = none → removeKey mp s = mp) ∧
+    (∀ n, n ∈ removeKey mp s ↔ n ∈ mp ∧ n.s ≠ s) := by
+  constructor
+  · intro h
+    unfold removeKey
+    rw [List.filter_eq_self]
+    intro n hn
+    have := List.find?_eq_none.mp h n hn
+    simpa using this
+  · intro n
+    simp [removeKey]
+
+/-- the history form: after any history, removing at an address where no live mapping starts leaves every lookup
+as it was -/
+theorem C11_remove_nonstart_keeps_lookups (ops : List Op) (s a : Nat)
+    (h : removeOut (run ops).map s = none) :
+    lookup (run (ops ++ [.remove s])).map a = lookup (run ops).map a := by
+  simp only [run, List.foldl_append, List.foldl_cons, List.foldl_nil, step]
+  rw [show List.foldl step Table.empty ops = run ops from rfl, (C11_remove_only_by_start _ s).1 h]
+
+/-- non-vacuity (the seeded change C11-5): A = [100,200) displaced by B = [50,150); removing at 100 finds nothing
+and 120 still resolves to B -/
+example : removeOut (run [.add ⟨100, 200, 0, 1⟩, .add ⟨50, 150, 0, 2⟩]).map 100 = none ∧
+    lookup (run [.add ⟨100, 200, 0, 1⟩, .add ⟨50, 150, 0, 2⟩, .remove 100]).map 120 = some 2 := by decide
